@@ -331,7 +331,7 @@ def judge_request(law, a, b, c, d, outcome, exact, cross):
     info["truth"] = mp.nstr(ref, 30)
     # exact mode: 1e-30 against the 75-digit reference (direct sweep); 1e-22 when only the 50-digit primary oracle is used
     rel_tol = (1e-30 if cross else 1e-22) if exact else 1e-17
-    if abs(ref) > 0 and 10 * err > mp.mpf(10) ** -20 * max(abs(ref), mp.mpf(10) ** -12):
+    if abs(ref) >= mp.mpf(10) ** -30 and 10 * err > mp.mpf(10) ** -12 * abs(ref):
         return {"status": "skip", "reason": "oracle-precision", "cmp": 0, "nontrivial": False, "info": dict(info, err=mp.nstr(err, 3))}
     ok, tol = close(pv, ref, rel_tol, err)
     info["tol"] = mp.nstr(tol, 3)
